@@ -52,6 +52,9 @@ func runC06(l *core.Ledger) {
 	}
 	l.With(map[string]string{"C02-T4": "C06-P2"}, func() { c02T4(l, r) })
 	l.With(map[string]string{"C10-N1": "C06-P7"}, func() { c10N1(l, r) })
+	c06P12(l, r, "C06-P12")
+	l.Rule("C06-P11", "a request whose context has ended is not written, and the stream is reset only for a write that is in progress when the context ends (C08-B3 re-run): a reset discards the one-way messages of other calls that the server has received and not yet read - calls that have returned, with contexts that never ended")
+	l.With(map[string]string{"C08-B3": "C06-P11"}, func() { c08B3(l, r) })
 	c06P8(l, r)
 	c06P10(l, r)
 	l.With(map[string]string{"C03-F3": "C06-P2"}, func() { c03F2F3(l, r) })
@@ -617,6 +620,50 @@ func c06P8(l *core.Ledger, r *rt) {
 // send-buffer option, 0 by default, and the sender (re)dials synchronously
 // between two dequeues: with a blocking dial (grpc.WithBlock) the caller waits
 // for the previous message's connection attempt.
+// c06P12: the server's receive loop ends only when reading from the stream
+// fails. Returning from NodeStream ends the whole stream: gRPC discards every
+// message of the client that has arrived and not been read yet - one-way
+// messages of calls that have long returned - and every call pending on the
+// node fails. A request the server cannot serve (unknown method) is therefore
+// skipped (or answered), never turned into the stream's status.
+func c06P12(l *core.Ledger, r *rt, rule string) {
+	l.Rule(rule, "the server's receive loop returns only on the error edge of its RecvMsg: no return inside the loop is reachable from the read without passing the error-non-nil edge of the read's result")
+	var sl *serverLoop
+	l.With(map[string]string{}, func() { sl = findServerLoop(l, r, "C03-F4") })
+	if sl == nil || sl.recv == nil {
+		l.Unknown(rule, "anchor/server-loop", token.NoPos, "the server's receive loop was not found")
+		return
+	}
+	m := func(o sx.Origin) bool { return (o.Kind == sx.KCall || o.Kind == sx.KExtract) && o.V == ssa.Value(sl.recv) }
+	var errEdges []sx.Edge
+	sx.AllInstrs(sl.fn, func(_ sx.Node, in ssa.Instruction) {
+		if ifi, ok := in.(*ssa.If); ok && isErrNonNil(ifi, m) != 0 {
+			errEdges = append(errEdges, errEdge(ifi, m, true))
+		}
+	})
+	key := fnKey(sl.fn) + "/returns-only-on-read-error"
+	if len(errEdges) == 0 {
+		l.Bad(rule, key, sl.recv.Pos(), "the result of the server's RecvMsg is never tested")
+		return
+	}
+	w, reaches := sx.Reach(sx.NodeOf(sl.recv), func(n sx.Node) bool {
+		_, isRet := n.Instr().(*ssa.Return)
+		return isRet
+	}, sx.Query{BlockEdge: func(e sx.Edge) bool {
+		for _, x := range errEdges {
+			if x == e {
+				return true
+			}
+		}
+		return false
+	}, BlockNode: sx.IsInstr(sl.recv)})
+	if reaches {
+		l.Bad(rule, key, sx.PosOf(w.Instr()), "NodeStream can return although reading from the stream succeeded: the return ends the stream, gRPC discards the client's messages that have arrived and are not read yet (one-way messages of calls that have returned are never delivered) and every call pending on the node is failed")
+	} else {
+		l.OK(rule, key, sl.recv.Pos(), "between two reads the loop returns only on the read's error edge")
+	}
+}
+
 func c06P10(l *core.Ledger, r *rt) {
 	eq := findEnqueueFn(l, r)
 	sfn, _, _ := findSenderFn(l, r)
